@@ -120,6 +120,7 @@ def run_group(tape):
     for st in sims:
         st.al_state = tape.pick("c14/start", ORDER)
         st.al_error = tape.chance("c14/start-error", 25)
+        st.al_status_extra = tape.pick("c14/status-upper-bits", [0, 0, 0, 0x20, 0x40, 0x80])
         code0 = tape.chance("c14/status-code-zero", 30)
         st.al_code = (0 if code0 else 0x1a) if st.al_error else 0
         maxd = tape.draw("c14/maxdelay", 4)
@@ -247,6 +248,8 @@ def run(tape, scenario):
         err = tape.chance("c14/start-error", 25)
         t.al_state = start
         t.al_error = err
+        # the upper bits of the AL status are not part of the state: ID loaded, reserved
+        t.al_status_extra = tape.pick("c14/status-upper-bits", [0, 0, 0, 0x20, 0x40, 0x80, 0xe0])
         # the AL status code that goes with an error: some terminals leave it at 0
         code0 = tape.chance("c14/status-code-zero", 30)
         t.al_code = (0 if code0 else 0x1a) if err else 0
@@ -260,6 +263,9 @@ def run(tape, scenario):
             ntrans[0] += 1
             if slow_at is not None and ntrans[0] - 1 == slow_at:
                 world.count("c14/transition-over-1000-polls")
+                if tape.chance("c14/slower-still", 8):
+                    world.count("c14/transition-over-10000-polls")
+                    return 10001 + tape.draw("c14/slowest-polls", 300)
                 return 1001 + tape.draw("c14/slow-polls", 300)
             return tape.draw("c14/delay", maxd + 1)
         t.al_delay = al_delay
@@ -308,7 +314,7 @@ def run(tape, scenario):
     violations = []
     with env:
         try:
-            env.run(main)
+            env.run(main, max_iterations=600_000)
         except asyncio.TimeoutError:
             pass
         loop_exc = env.loop_exceptions()
